@@ -38,6 +38,7 @@ CHECKS = {
  "C03": vs("4/C03", "2-3 subscribers on disjoint/overlapping/default topics (one cancelled after noting which publishes had returned, or one failing), 2-3 publisher threads, fast and slow clients: ALL schedules at synchronisation granularity are executed on the real code; the oracle rebuilds Joe's serialisation order from the recording replayer and checks exactly-once, order, topic matching, completeness and Send-then-Flush on every execution."),
  "C04": vs("4/C04", "Real FiniteReplayer/ValidReplayer behind a recording wrapper, manual and automatic IDs, histories below/at/beyond capacity and across the ring's wrap point, every presentable ID (each buffered one, newest, evicted, never issued, next-to-be-issued, none), one or two resuming subscribers racing a publisher: ALL schedules; the Send sequence must equal [reference replay of the puts before the registration] ++ [matching puts after it], IDs identical live and replayed."),
  "C07": vs("4/C07", "Every multiset of up to 4 actors {Subscribe, Subscribe+cancel, Publish, 2xPublish, Shutdown, Shutdown(ctx)+cancel} with a Shutdown, Joe initialised before or by the racing calls, fast/slow clients, followed by late calls: ALL schedules; termination is decided by the scheduler's deadlock detector (no timeouts), return values by the oracle."),
+ "C10": vs("4/C10", "The real Connect loop on a virtual clock with a transport that records header and request body of every attempt; 5 request-body kinds; inside each scenario the explorer enumerates EVERY script of attempt outcomes up to the bound (transport failure, rejected response, 200 + 10 streams ending cleanly or with a read error; longer scripts over a smaller alphabet). The expected header is a fold of the WHATWG reference over the script; non-resettable bodies must end Connect after exactly one (two) attempts with ErrNoGetBody / GetBody's error - an endless retry loop is caught by the step horizon."),
  "C11": vs("4/C11", "The real Connect loop on a virtual clock; response bodies = every distinct prefix of every string of <= 4 (5) tokens, ending cleanly, with a read error or with a cancellation at that read, whole or byte-at-a-time, x MaxRetries x validator verdict (body and ending are explorer choices); a second thread cancelling at EVERY possible moment (all interleavings incl. timer-vs-cancel); rejected responses and oversized events on bodies that never end (blocking is decided by the deadlock detector); transport errors that merely look like context errors; the same bodies through sse.Read."),
  "C12": vs("4/C12", "The real Connect loop on a virtual clock, single thread: 576 Backoff configurations (all combinations of the listed values); inside each the explorer enumerates EVERY history of attempt outcomes up to the bound (failure, connect+drop, server retry fields valid and invalid) and the random draws (median plus deviation-bounded extremes at every position). The closed-form schedule is compared with OnRetry's waits, the durations the timer was armed with and the virtual times of the attempts."),
  "C17": vs("4/C17", "Three (four) subscribers with one failing at its k-th call, a publisher, and a replayer whose k-th Put/Replay errs or panics (all enumerated): ALL schedules, map orders exhaustively in the racing scenarios and deviation-bounded in the phased ones; the delivery oracle demands for the healthy subscribers exactly what C03 demands, as if the failing one did not exist."),
